@@ -19,8 +19,13 @@ numbers only, undeclared keywords travelling with a raising call. INCLUDE_MIXED_
 Round-5/6 generalisation (bug classes 21-29): 26 a parameter's own default passed explicitly (twin call under every cache layer, session kind 'explicit_default'),
 27 float arguments and their neighbours within rtol 1e-5 / atol 1e-8 as distinct cache keys, 28 the caller's own in-place edit of a shared argument object between two calls
 of a session, 29 label for try_back falling back to a falsy first argument. 21-25 do not apply (no dates, nothing tabulated, no renames, no objects rebuilt from text, no arrays).
+
+Round-7 generalisation (bug classes 30-40; 36 and 34 looked at): 36 the FORM of f - functions carrying __wrapped__ (the outer function of a functools.wraps decorator whose inner function has
+another signature), functools.partial objects, functions with no parameter at all (s_sig: keys 'wraps' / 'partial' of the signature spec, labels form_labels) in every hypothesis sub-check;
+34 `large` gives one cached function 400 / 1000 / 2000 distinct argument combinations, then all of them again (the early ones first, or rotated).
 """
 import copy
+import functools
 import inspect
 import itertools
 import json
@@ -67,6 +72,12 @@ ASSUMPTIONS = [
     'exceptions raised by f are subclasses of Exception (not KeyboardInterrupt/SystemExit)',
     'cache is judged with a non-raising f (statement); histories call plain cache(f) / cache(cache(f)) wrappers, never clear_cache',
     'stacks are built bottom-up by the library itself, so a stack never holds two layers of one class (try_none..try_list are one class)',
+    'bug class 36, the FORM of f: 2 in 24 signatures belong to the OUTER function of a functools.wraps decorator, which carries __wrapped__ = an inner function with ANOTHER signature (a leading parameter more, '
+    'parameters renamed / reversed, another number of defaults, more named parameters and no *va / **vk). Python binds a call to the outer signature (inspect.getfullargspec and inspect.getcallargs do not follow '
+    '__wrapped__; only inspect.signature does), so "f\'s argument specification" is the outer one and every oracle (binding model, direct call, inspect) is taken from it; the inner function is never to be called',
+    '1 in 24 signatures belong to a functools.partial object that supplies 1-2 LEADING POSITIONAL arguments of a function with that many parameters more (keywords bound by a partial would turn the remaining parameters '
+    'keyword-only, which are outside the quantifier). inspect.getcallargs refuses partial objects (it reads f.__name__), so there the binding model alone states what python binds; the library works on copies of the function '
+    'it is given and python compares partial objects by identity, so for partial objects "ends in f" means a partial of the same function and arguments and W(W(f)) == W(f) is not asked (layers, parameters, results are)',
     'rewrap: with REWRAP_DEEP = True (the wrapper.__init__ defect F12 is fixed) the class that is wrapped again may sit at any depth of the stack',
 ]
 
@@ -219,10 +230,12 @@ def make_family(s, logs, dvals_list, form='def', counter=False, ret=None, snap=F
     n, d, va, vk = _sig(s)
     nms = pnames(s)
     report = '_body(_log, [%s], %s, %s)' % (', '.join("['%s', %s]" % (nm, nm) for nm in nms), 'va' if va else 'None', 'vk' if vk else 'None')
+    # s['partial'] = k: the function proper takes k leading arguments more, which functools.partial supplies; what is left is the signature s
+    params = ', '.join(['_p%i' % j for j in range(int(s.get('partial') or 0))] + ([_params_src(s, None)] if _params_src(s, None) else []))
     if form == 'def':
-        src = 'def factory(_log, _dflt):\n    def f(%s):\n        return %s\n    return f\n' % (_params_src(s, None), report)
+        src = 'def factory(_log, _dflt):\n    def f(%s):\n        return %s\n    return f\n' % (params, report)
     else:
-        src = 'def factory(_log, _dflt):\n    return lambda %s: %s\n' % (_params_src(s, None), report)
+        src = 'def factory(_log, _dflt):\n    return lambda %s: %s\n' % (params, report)
 
     def _body(log, p, va_, vk_):
         log.append(1)
@@ -242,8 +255,65 @@ def make_family(s, logs, dvals_list, form='def', counter=False, ret=None, snap=F
     out = []
     for log, dvals in zip(logs, dvals_list):
         sj = s if dvals is None else dict(s, dvals=dvals)
-        out.append(ns['factory'](log, [build(default_spec(sj, i)) for i in range(n - d, n)]))
+        fn = ns['factory'](log, [build(default_spec(sj, i)) for i in range(n - d, n)])
+        if s.get('wraps') and s.get('partial'):
+            raise HarnessError('one form per function: %r' % (s,))
+        if s.get('wraps'):
+            # fn is the OUTER function of a functools.wraps decorator: it carries __wrapped__ (and the name / doc) of an inner function with another signature
+            inner = make_inner(s)
+            fn = functools.wraps(inner)(fn)
+            if fn.__wrapped__ is not inner or inspect.getfullargspec(fn) == inspect.getfullargspec(inner):
+                raise HarnessError('the inner function must have another signature: %r' % (s,))
+        if s.get('partial'):
+            fn = functools.partial(fn, *['P%i' % j for j in range(int(s['partial']))])
+        out.append(fn)
     return out
+
+
+def inner_sig_text(s):
+    w = s['wraps']
+    names, d = list(w['names']), int(w['d'])
+    if not (0 <= d <= len(names)) or len(set(names)) != len(names):
+        raise HarnessError('bad inner signature %r' % (w,))
+    ps = [nm if i < len(names) - d else '%s=%r' % (nm, 'W' + nm) for i, nm in enumerate(names)]
+    return ', '.join(ps + (['*va'] if w['va'] else []) + (['**vk'] if w['vk'] else []))
+
+
+def make_inner(s):
+    """the inner function g of a functools.wraps decorator (s['wraps'] = its kind, parameter names, number of defaults 'W<name>', *va, **vk); nobody is to call it"""
+    ns = {}
+    exec('def g(%s):\n    """the inner function"""\n    return [\'the INNER function was called\', sorted(locals())]\n' % inner_sig_text(s), ns)
+    return ns['g']
+
+
+def form_text(s):
+    if s.get('wraps'):
+        return ' [f carries __wrapped__: @functools.wraps(g) with g(%s), kind %s]' % (inner_sig_text(s), s['wraps']['kind'])
+    if s.get('partial'):
+        return ' [f = functools.partial(g, %s), g takes %s leading argument(s) more]' % (', '.join(repr('P%i' % j) for j in range(int(s['partial']))), s['partial'])
+    return ''
+
+
+def form_labels(s):
+    """class labels of the function's form (bug class 36)"""
+    n, d, va, vk = _sig(s)
+    out = []
+    if s.get('wraps'):
+        out += ['wrapped_function_with_another_signature', 'wraps:' + s['wraps']['kind']]
+    if s.get('partial'):
+        out.append('partial_object')
+    if n == 0 and not va and not vk:
+        out.append('no_parameter_at_all')
+    if n == 0:
+        out.append('no_named_parameter')
+    return out
+
+
+def same_function(g, f):
+    """g is f - or, for functools.partial objects (the library works on copies; python compares partial objects by identity), a partial of the same function and arguments"""
+    if g is f:
+        return True
+    return isinstance(f, functools.partial) and isinstance(g, functools.partial) and g.func is f.func and g.args == f.args and g.keywords == f.keywords
 
 
 def model_bind(s, args, kwargs):
@@ -601,7 +671,7 @@ def has_extra_kw(s, kwargs):
 
 
 def call_text(s, args, kwargs):
-    return 'f(%s) called as (%s)' % (sig_text(s), ', '.join([short(build(a), 40) for a in args] + ['%s=%s' % (k, short(build(v), 40)) for k, v in kwargs]))
+    return 'f(%s)%s called as (%s)' % (sig_text(s), form_text(s), ', '.join([short(build(a), 40) for a in args] + ['%s=%s' % (k, short(build(v), 40)) for k, v in kwargs]))
 
 
 # ----------------------------------------------------------------------------- the decorators
@@ -694,7 +764,7 @@ def check_argspec(what, w, f):
     for fld in SPEC_FIELDS:
         g = call('getargspec(%s).%s' % (what, fld), getattr, got, fld)
         e = getattr(want, fld)
-        check(type(g) is type(e) and g == e, 'getargspec(%s).%s = %s but f(%s) has %s', what, fld, g, inspect.signature(f), e)
+        check(type(g) is type(e) and g == e, 'getargspec(%s).%s = %s but f%s has %s (python binds a call to this signature: inspect.getfullargspec does not follow __wrapped__)', what, fld, g, str(inspect.signature(f, follow_wrapped=False)), e)
 
 
 def check_binding(what, w, f, s, args, kwargs, exp, callargs, alts=()):
@@ -704,7 +774,8 @@ def check_binding(what, w, f, s, args, kwargs, exp, callargs, alts=()):
     """
     from pyg_base import getcallargs, call_with_callargs
     a, k = bvals(args, kwargs)
-    ic = inspect.getcallargs(f, *a, **k)
+    # inspect.getcallargs reads f.__name__, which a functools.partial object has not: there the binding model alone says what python binds
+    ic = callargs_built(callargs) if isinstance(f, functools.partial) else inspect.getcallargs(f, *a, **k)
     if not same(ic, callargs_built(callargs)):
         raise HarnessError('binding model disagrees with inspect.getcallargs: %r vs %r' % (callargs, ic))
     a, k = bvals(args, kwargs)
@@ -782,7 +853,40 @@ def s_sig(draw, vk=None, min_n=0):
     if d and draw(st.sampled_from([False, False, False, False, True])):
         # defaults that are containers: as long as the parameter list / the defaults, keyed like the parameters or like extra keywords, empty, one element
         s['dvals'] = [draw(st.sampled_from(container_defaults(s))) for _ in range(d)]
+    form = draw(st.sampled_from(FORMS))
+    if form == 'wraps':
+        s['wraps'] = draw(s_wraps(s))
+    elif form == 'partial':
+        s['partial'] = draw(st.sampled_from([1, 1, 2]))
     return s
+
+
+# the form of the function (bug class 36): a plain function; 2 in 24 the outer function of a functools.wraps decorator whose inner function has another signature;
+# 1 in 24 a functools.partial object that supplies 1-2 leading positional arguments
+FORMS = [None] * 21 + ['wraps', 'wraps', 'partial']
+RENAMED = ['x', 'y', 'z', 'e']
+
+
+@st.composite
+def s_wraps(draw, s):
+    """
+    the inner function's signature, by construction ANOTHER one than s: a leading parameter more (the decorator supplies it), the parameters renamed (to names the
+    extra / undeclared keywords use), in reverse order, another number of defaults (all with other values), or more named parameters and no *va / **vk
+    (the outer function being the more generic one)
+    """
+    n, d, va, vk = _sig(s)
+    nms = pnames(s)
+    kinds = ['lead', 'lead'] + (['renamed', 'renamed', 'defaults'] if n >= 1 else []) + (['reordered', 'reordered'] if n >= 2 else []) + (['more'] if n <= 3 else [])
+    kind = draw(st.sampled_from(kinds))
+    if kind == 'lead':
+        return dict(kind=kind, names=['p'] + nms, d=d, va=va, vk=vk)
+    if kind == 'renamed':
+        return dict(kind=kind, names=(NESTED_EXTRA if s.get('nm') else RENAMED)[:n], d=d, va=va, vk=vk)
+    if kind == 'reordered':
+        return dict(kind=kind, names=nms[::-1], d=d, va=va, vk=vk)
+    if kind == 'defaults':
+        return dict(kind=kind, names=nms, d=draw(st.sampled_from([x for x in range(n + 1) if x != d])), va=va, vk=vk)
+    return dict(kind=kind, names=(NESTED if s.get('nm') else NAMES)[:n + draw(st.integers(1, 4 - n))], d=d, va=False, vk=False)
 
 
 def container_defaults(s):
@@ -870,7 +974,7 @@ def s_transparent(draw):
         args, kwargs = draw(s_plant_float(args, kwargs))
     ok = [nm for nm in DECOS if admissible(nm, s, args, kwargs)]
     klasses = sorted(set(KLASS[nm] for nm in ok))
-    depth = draw(st.sampled_from([1, 2, 2, 3, 3]))
+    depth = draw(st.sampled_from([1, 2, 2, 3, 3, 2, 3, 2, 3]))       # (the last four: the share of non-trivial cases restored after the function forms of class 36 were added to s_sig)
     stack = []
     for _ in range(depth):
         c = draw(st.sampled_from(klasses))
@@ -999,6 +1103,9 @@ def run_transparent(spec):
                 cls.append('container_default_relied_on')
         if any(holds_float(v) for v in list(args) + [v for _, v in kwargs]):
             cls.append('float_argument')
+        cls += form_labels(s)
+        if s.get('wraps') and nkw:
+            cls.append('wrapped_function_called_by_keyword')
     if spec.get('two_step'):
         cls.append('two_step_spelling')
     return dict(nt=nt, cls=cls)
@@ -1295,6 +1402,7 @@ def run_session(spec):
         cls.append('evaluations_counted')
     if has_container_default(s):
         cls.append('container_default')
+    cls += form_labels(s)
     distinct = len(set(json.dumps([a, k]) for _, a, k in calls))
     return dict(nt=distinct >= 2, cls=sorted(set(cls)))
 
@@ -1380,13 +1488,13 @@ def run_rewrap(spec):
     # --- equals wrapping once: same layers, same parameters, same innermost function
     lw, fw = layers(w)
     lo, fo = layers(once)
-    check(fw is f, '%s does not end in f but in %s', what, fw)
-    if fo is not f:
+    check(same_function(fw, f), '%s does not end in f but in %s', what, fw)
+    if not same_function(fo, f):
         raise HarnessError('reference stack does not end in f')
     check([c for c, _ in lw] == [c for c, _ in lo], '%s has layers %s, wrapping once (%s) has %s', what, [c for c, _ in lw], stack_text(once_stack), [c for c, _ in lo])
     for (c, pw), (_, po) in zip(lw, lo):
         check(pw == po, '%s: layer %s has parameters %s, wrapping once (%s) gives %s', what, c, pw, stack_text(once_stack), po)
-    if not warm:
+    if not warm and not s.get('partial'):
         eq = call('%s == %s' % (what, stack_text(once_stack)), lambda: w == once)
         check(bool(eq), '%s != %s: %s vs %s', what, stack_text(once_stack), w, once)
     # --- the stack that was wrapped again is still the function it was (compared with the untouched twin;
@@ -1409,6 +1517,7 @@ def run_rewrap(spec):
         cls.append('variant_differs')
     if warm:
         cls.append('spec_cached_before')
+    cls += form_labels(s)
     return dict(nt=len(stack) >= 2, cls=cls)
 
 
@@ -1558,7 +1667,7 @@ def _run_try(spec):
     else:
         w = wrap(stack, f)
     check_argspec(what, w, f)
-    cls = [name, 'depth=%i' % len(stack)]
+    cls = [name, 'depth=%i' % len(stack)] + form_labels(s)
     outcomes = []
     done = []
     for j, (args, kwargs) in enumerate([[args, kwargs]] + [list(c) for c in spec.get('more', [])]):
@@ -1610,6 +1719,8 @@ def _run_try(spec):
             cls.append('exception_args=%i' % len(raised.args))
             if not len(args):
                 cls.append('raises_all_by_keyword')
+                if s.get('wraps') and name == 'try_back':
+                    cls.append('try_back_on_wrapped_function_first_argument_by_keyword')
             if opts and opts['verbose']:
                 cls.append('verbose_wrapper_sees_exception')
                 if len(raised.args) != 1 or '%' in str(raised.args[0]):
@@ -1648,6 +1759,10 @@ def s_kws(draw):
         names = extra_names(s) + ['va', 'vk', 'e'] + [nm for nm in (NESTED if s.get('nm') else NAMES)[n:]] + (['function'] if s.get('nm') else WRAPPER_WORDS[:4])
         for nm in draw(st.lists(st.sampled_from(names), min_size=1, max_size=3, unique=True)):
             extra.append([nm, draw(_val)])
+        inner_only = [nm for nm in (s.get('wraps') or {}).get('names', []) if nm not in pnames(s) and nm not in [k for k, _ in extra]]
+        if inner_only and draw(st.booleans()):
+            # a keyword that the INNER function of a functools.wraps pair declares and f itself does not: undeclared
+            extra.append([draw(st.sampled_from(inner_only)), draw(_val)])
     if mode == 'duplicate':
         npos = min(len(args), n)
         if npos == 0:
@@ -1687,7 +1802,7 @@ def run_kws(spec):
         # a declared keyword must be passed on, so python itself rejects the second value
         must_raise('%s for %s (a declared keyword that is also given positionally must not be dropped)' % (what, txt), TypeError, w, *a, **k)
         check(len(log) == 0, '%s for %s evaluated f', what, txt)
-        return dict(nt=True, cls=['duplicate'])
+        return dict(nt=True, cls=['duplicate'] + form_labels(s))
     keep = [kv for kv in passed if kv[0] in declared]
     exp, callargs, nkw, ndef = expected(s, args, keep)
     direct(f, s, args, keep, exp)
@@ -1695,7 +1810,13 @@ def run_kws(spec):
     check(same(r, exp), '%s for %s returned %s; with exactly the undeclared keywords %s ignored f returns %s', what, txt, r,
           [kv[0] for kv in passed if kv[0] not in declared], exp)
     nun = len(passed) - len(keep)
-    cls = [mode, 'vk' if vk else 'no_vk', 'depth=%i' % len(stack)]
+    cls = [mode, 'vk' if vk else 'no_vk', 'depth=%i' % len(stack)] + form_labels(s)
+    if nun and s.get('wraps'):
+        cls.append('undeclared_keyword_to_wrapped_function')
+        if any(kv[0] in s['wraps']['names'] for kv in passed if kv[0] not in declared):
+            cls.append('undeclared_keyword_is_a_parameter_of_the_inner_function')
+    if nun and n == 0 and not va:
+        cls.append('undeclared_keyword_to_function_without_parameters')
     if nun and keep:
         cls.append('declared+undeclared_keywords')
     if nun and any(kv[0] in ('va', 'vk') for kv in passed):
@@ -1855,6 +1976,7 @@ def run_same_code(spec):
 # ----------------------------------------------------------------------------- sub-check: large numbers of keys / arguments
 
 LARGE = [64, 65, 100, 128, 129, 200, 256, 300]
+MANY = [400, 1000, 2000]
 
 
 def _long_call(s, npos, nkw, kw_order):
@@ -1869,6 +1991,13 @@ def large_cases():
             for order in ['same', 'reversed', 'rotated']:
                 for ret in [None, ['by_first']]:
                     yield dict(part='cache_keys', N=N, shape=shape, order=order, ret=ret)
+    # many more distinct argument combinations than a bounded cache (maxsize 128 ... 1024) would hold, then the early ones again (bug class 34)
+    j = 0
+    for N in MANY:
+        for shape in ['positional', 'keyword', 'pos+kw', 'mersenne']:
+            for order in ['same', 'rotated']:
+                j += 1
+                yield dict(part='cache_keys', N=N, shape=shape, order=order, ret=['by_first'] if j % 3 == 0 else None)
     sigs = [dict(n=1, d=0, va=True, vk=True), dict(n=0, d=0, va=True, vk=False), dict(n=0, d=0, va=False, vk=True), dict(n=2, d=1, va=True, vk=True)]
     c = 0
     for N in [64, 65, 128, 200]:
@@ -1953,7 +2082,8 @@ def run_large(spec):
             check(same(r, first[i]), 'cache(f) holding %s keys: key number %s returned %s, its first result was %s', N, i, r, first[i])
         return dict(nt=True, cls=['cache_keys', 'N=%i' % N, 'shape=' + spec['shape'], 'order=' + spec['order']] + (['falsy_results'] if ret else [])
                     + (['hash_colliding_arguments'] if 'minus' in spec['shape'] or spec['shape'] == 'mersenne' else [])
-                    + (['container_twin_arguments'] if spec['shape'] == 'container_twins' else []))
+                    + (['container_twin_arguments'] if spec['shape'] == 'container_twins' else [])
+                    + (['more_keys_than_a_bounded_cache_would_hold'] if N >= 400 else []))
     s, stack = spec['sig'], spec['stack']
     args, kwargs = _long_call(s, spec['npos'], spec['nkw'], spec['kw_order'])
     for nm in stack:
@@ -2348,7 +2478,7 @@ SUBS = [
         rule='random signature, random valid call with values from ints/strings/None/lists/dicts, stack of 1-3 of the 11 decorators (repeats allowed), '
              'non-raising f; result == own binding model == direct call, getargspec fields == inspect.getfullargspec(f) before and after the call, '
              'getcallargs / call_with_callargs through the stack; in half the cases the same decorator objects then wrap a second function with '
-             'another signature. A third of the signatures use names that are prefixes of one another (a, ab, abc, abcd), a third defaults None/0/\'\'/False; **vk functions also get keywords spelled like wrapper parameters (function, value, exc, cache, types, repeat) and the ORDER in which extra keywords reach f is part of its report; class decorators are applied as D(f) or D()(f). In ~30% of the cases f returns a constant None / 0 / False / '' / [] / {} instead of its report; with a cache layer anywhere in the stack the same call is made twice: f evaluated exactly once (counted by side channel), same result, and once more with every dict argument written in the reverse insertion order (the same arguments: no evaluation; dicts keyed by numbers only included). A fifth of the signatures with defaults have container defaults; half of the pd2np layers are pd2np(exc = name / list of 0-2 names); in half of the D()(f) spellings ONE decorator object per class is applied to both functions (both wrapped before either is called); getcallargs\' dict is handed to call_with_callargs twice. In a sixth of the cases one argument is (or holds) a non-integral float (of order 1, 1e3 or 1e-9); under a cache layer the call is then repeated with a float within rtol 1e-5 / atol 1e-8 of it (a distinct argument: evaluated on its own), and every call that relies on a default is repeated with that parameter\'s own default passed explicitly, by keyword or by position (the same report, another combination of arguments as passed: evaluated on its own). non-trivial = stack of >= 2 decorators, or >= 1 keyword argument and >= 1 default relied on',
+             'another signature. A third of the signatures use names that are prefixes of one another (a, ab, abc, abcd), a third defaults None/0/\'\'/False; **vk functions also get keywords spelled like wrapper parameters (function, value, exc, cache, types, repeat) and the ORDER in which extra keywords reach f is part of its report; class decorators are applied as D(f) or D()(f). In ~30% of the cases f returns a constant None / 0 / False / '' / [] / {} instead of its report; with a cache layer anywhere in the stack the same call is made twice: f evaluated exactly once (counted by side channel), same result, and once more with every dict argument written in the reverse insertion order (the same arguments: no evaluation; dicts keyed by numbers only included). A fifth of the signatures with defaults have container defaults; half of the pd2np layers are pd2np(exc = name / list of 0-2 names); in half of the D()(f) spellings ONE decorator object per class is applied to both functions (both wrapped before either is called); getcallargs\' dict is handed to call_with_callargs twice. In a sixth of the cases one argument is (or holds) a non-integral float (of order 1, 1e3 or 1e-9); under a cache layer the call is then repeated with a float within rtol 1e-5 / atol 1e-8 of it (a distinct argument: evaluated on its own), and every call that relies on a default is repeated with that parameter\'s own default passed explicitly, by keyword or by position (the same report, another combination of arguments as passed: evaluated on its own). One signature in eight is that of a function in another FORM: the outer function of a functools.wraps decorator carrying __wrapped__ = an inner function with another signature (leading parameter more, renamed, reversed, other defaults, more parameters), or a functools.partial object supplying 1-2 leading arguments - judged by the signature python binds calls to (the outer one); functions with no parameter at all are labelled. non-trivial = stack of >= 2 decorators, or >= 1 keyword argument and >= 1 default relied on',
         floor=0.5, class_floors={'depth=3': 0.15, 'kw+default': 0.07, 'second_function_same_decorators': 0.15, 'has:cache_func': 0.15, 'has:loops': 0.07,
                                  'has:pd2np': 0.12, 'has:kwargs_support': 0.12, 'has:try_back': 0.15, 'has:try_value': 0.15,
                                  'f_returns_None': 0.08, 'f_returns_falsy': 0.08, 'cached_result_is_None': 0.03, 'cached_result_is_falsy': 0.03,
@@ -2399,7 +2529,7 @@ SUBS = [
     Sub('kwargs_support', lambda tier: s_kws(), run_kws, quick=2000, thorough=30000,
         rule='kwargs_support (alone or with 1-2 other decorators above/below) on functions without **vk: valid call plus 1-3 undeclared keywords (x, y, z, '
              'va, vk, function, e, value, exc, cache, names of parameters the function does not have, sub-/super-strings of declared names) in any order -> result of the call without them; a declared keyword that '
-             'is also given positionally must still reach f (TypeError); functions with **vk only with declared keywords; the position of kwargs_support relative to try layers and first-argument readers (loops, pd2np) is recorded. non-trivial = >= 1 undeclared keyword',
+             'is also given positionally must still reach f (TypeError); functions with **vk only with declared keywords; the position of kwargs_support relative to try layers and first-argument readers (loops, pd2np) is recorded. Functions that carry __wrapped__ (functools.wraps over an inner function with another signature) declare what their OWN signature declares: half of them are also given a keyword only the inner function has; functions with no parameter at all ignore every keyword. non-trivial = >= 1 undeclared keyword',
         floor=0.3, class_floors={'duplicate': 0.05, 'declared+undeclared_keywords': 0.1, 'undeclared_named_like_varargs': 0.05,
                                  'undeclared_is_substring_or_superstring_of_declared': 0.03, 'undeclared_named_like_wrapper_parameter': 0.04,
                                  'undeclared_keyword_dropped_above_a_try_layer': 0.015, 'undeclared_keyword_passes_a_try_layer_first': 0.025,
@@ -2428,7 +2558,7 @@ SUBS = [
     EnumSub('large', enum_large, run_large, chunks=8,
         rule='size thresholds (enumerated completely in both tiers): (a) one cached function given N in {64,65,100,128,129,200,256,300} distinct argument combinations (positional ints, keyword, '
              '(0,i,0) = same length/first/last, positional+keyword, lists, and hash-colliding families: ..,-1 / ..,-2 positional and keyword, i / i+2**61-1, [-1,i] / [-2,i]), then all of them again in the same / reversed / rotated order: N evaluations '
-             'in all, every repeat returns its first result (half the functions return None / falsy values); (b) calls with N extra positionals and/or '
+             'in all, every repeat returns its first result (half the functions return None / falsy values); also N in {400,1000,2000} (positional, keyword, positional+keyword, i / i+2**61-1; same / rotated order) - more than a bounded cache of 128 ... 1024 entries would hold; (b) calls with N extra positionals and/or '
              'N extra keywords through 1-2 decorators: result, getargspec, getcallargs / call_with_callargs. every case is non-trivial'),
     EnumSub('binding_grid', enum_grid, run_grid, chunks=16,
             rule='EVERY signature (0-4 positional parameters x 0..n trailing defaults x +-*va x +-**vk = 60) x EVERY split of a valid argument set '
@@ -2438,6 +2568,19 @@ SUBS = [
                  'getcallargs/call_with_callargs through the wrapper, W(W(f)) one layer with the same result; cache(f) additionally with f returning each of None / 0 / False / \'\' / [] / {}: two identical calls, one evaluation. '
                  'non-trivial = >= 1 parameter passed by keyword and >= 1 default relied on'),
 ]
+
+# bug class 36: the form of the function (floors at about a third of the rates observed over seeds 1-3)
+FORM_FLOORS = {
+    'transparent': {'wrapped_function_with_another_signature': 0.035, 'wraps:lead': 0.012, 'wraps:renamed': 0.005, 'wraps:reordered': 0.001, 'wraps:defaults': 0.003, 'wraps:more': 0.0015,
+                    'wrapped_function_called_by_keyword': 0.01, 'partial_object': 0.008, 'no_parameter_at_all': 0.025},
+    'session': {'wrapped_function_with_another_signature': 0.017, 'partial_object': 0.008, 'no_parameter_at_all': 0.0125},
+    'rewrap': {'wrapped_function_with_another_signature': 0.017, 'partial_object': 0.011, 'no_parameter_at_all': 0.0115},
+    'try_fallback': {'wrapped_function_with_another_signature': 0.022, 'partial_object': 0.01},
+    'kwargs_support': {'wrapped_function_with_another_signature': 0.024, 'partial_object': 0.01, 'no_parameter_at_all': 0.02, 'undeclared_keyword_to_wrapped_function': 0.011,
+                       'undeclared_keyword_is_a_parameter_of_the_inner_function': 0.004, 'undeclared_keyword_to_function_without_parameters': 0.017},
+}
+for _sub in SUBS:
+    _sub.class_floors.update(FORM_FLOORS.get(_sub.name, {}))
 
 if INCLUDE_MIXED_KEY_DICTS:
     for _sub in SUBS:
